@@ -208,3 +208,7 @@ Qed.
 (** C18_vf2_orbits: the orbit classes of the example: {A,B}, {C}, {r_1,r_2} *)
 Example ex_vf2_orbits : conn (uf_orbits (node_ids g1) (auts g1)) 0%N 1%N /\ length (uf_orbits (node_ids g1) (auts g1)) = 3.
 Proof. split; [exists [1;0]%N; vm_compute; auto|vm_compute; reflexivity]. Qed.
+
+(** C18_orbits_sound_partial: the canonicaliser's orbit list of the example: {r_1,r_2}, {A,B}, {C} *)
+Example ex_canon_orbits : orbits_from_perms (min_leaves g1) = [[3;4];[1;0];[2]]%N.
+Proof. rewrite min_leaves_g1. vm_compute. reflexivity. Qed.
